@@ -329,6 +329,8 @@ def _brief(a: Any) -> str:
 
 
 def run(repo: Repo, rep: Report) -> None:
+    from ..selftest import k3_check
+    k3_check.engine_selfcheck(rep)  # PZ-X decides posted constraints with the projection engine
     rep.rule("AKR", "returned flag = this solver's solve(); every returned container = variables registered as answer keys before solve()")
     rep.rule("IDX-1", "no computed index / slice bound is negative at any subscript while posting constraints")
     rep.rule("IDX-2", "posting the constraints raises nothing on non-square boards in both orientations with clues on every edge")
